@@ -8,7 +8,7 @@ CHECK = {
     "timeout": (900, 7200),
     "rule": ("sub 'function' (90 %): objective = generated quadratic or one of the registered smooth functions (n = 1..8), 0..8 constraints drawn "
              "uniformly over the 11 registered kinds (constant, minimum, maximum, ball eq/ineq, linear eq/ineq, quadratic eq/ineq with symmetric P of "
-             "either definiteness, functional eq/ineq wrapping a generated quadratic or a non-smooth l1 function), real or small-integer data, x in "
+             "either definiteness or (35 %) a general non-symmetric P, functional eq/ineq wrapping a generated quadratic or a non-smooth l1 function), real or small-integer data, x in "
              "[-5,5]^n, penalty in [1e-3,1e6], multipliers lambda in [-10,10], miu in [0,10] (15 % all zero); one third of the cases make every "
              "constraint hold at x by construction, one third a mix. Oracle: h_j, g_i and their gradients re-implemented from the constraint data, then "
              "the three defining formulas with their (sub)gradients (membership in the sub-differential at kinks of the linear penalty), agreement to "
